@@ -244,11 +244,14 @@ fn run_real(variant: &str, attr: TS, item: TS) -> Result<TS, String> {
 }
 
 fn process_line(line: &str) -> String {
-    let mut parts = line.splitn(4, '\t');
+    let mut parts = line.splitn(5, '\t');
     let id = parts.next().unwrap_or("");
     let variant = parts.next().unwrap_or("");
     let attr_text = parts.next().unwrap_or("");
     let item_text = parts.next().unwrap_or("");
+    // what the generator knows about the case by construction (e.g. which module entries are
+    // visible functions); passed through to the property predicates
+    let meta = parts.next().unwrap_or("");
     let attr: TS = match attr_text.parse() {
         Ok(t) => t,
         Err(_) => return format!("[lexerr n:{} ]", id),
@@ -290,6 +293,7 @@ fn process_line(line: &str) -> String {
             wire::toks(item),
             item_enc,
             real,
+            wire::text(meta),
         ],
     )
 }
